@@ -61,6 +61,10 @@ def step_terms(case, with_reload=True, with_cut=True, expect_fail=False):
     for st in case["steps"]:
         op, res = st["op"], st["res"]
         k = op[0]
+        if k == "liveprobe":
+            # terminal LIVE-RESYNC PROBE (resync on the live objects, not a schedule of the
+            # model): judged by the implementation-side live_release_rule only
+            break
         t = None
         if k == "add":
             t = ("TOp (OSend %s (UAdd %s %s %s)) Ok" % (pb(op[1]), cZ(op[2]), cZ(op[3]), cZ(op[4]))
@@ -195,6 +199,10 @@ def view_step_terms(case, with_reload=True, with_cut=True, expect_fail=False):
     for st in case["steps"]:
         op, res = st["op"], st["res"]
         k = op[0]
+        if k == "liveprobe":
+            # terminal LIVE-RESYNC PROBE (resync on the live objects, not a schedule of the
+            # model): judged by the implementation-side live_release_rule only
+            break
         ex = st.get("extra") or {}
         hl = st.get("hl")
         if not isinstance(hl, dict) or not all(isinstance(hl.get(p), dict) for p in ("a", "b")):
